@@ -92,7 +92,13 @@ def idLt (a b : ID) : Bool := decide (a.1 < b.1) || (decide (a.1 = b.1) && decid
 /-- `before rev a b`: a is placed strictly before b by the sort (`rev` = `order.IsReverse()` = ascending) -/
 def before (rev : Bool) (a b : ID) : Bool := if rev then idLt a b else idLt b a
 
-/-- the sort of `MergeQPRs` is only specified up to the order of equal IDs; modelled as a stable insertion sort -/
+/-- the sort of `MergeQPRs` is only specified up to the order of equal IDs (`sort.Sort` is unstable); modelled as an
+insertion sort by `foldr`.  NOTE: it is NOT stable - `insertS` puts `x` behind the entries equal to it and `foldr`
+inserts the earlier elements last, so equal IDs end up in REVERSE input order and `dedup` keeps the entry of the LAST
+answer that listed the ID (C17's `SV.Repetitions.mergeQPRs`, a stable `List.mergeSort`, keeps the first; witness
+`SV.Consistency.cons_seeds_repetitions_mergeQPRs_ne_proxy_mergeQPRs_source_witness`).  No theorem depends on which
+source survives; ID lists and totals of the two models are equal on all inputs
+(`cons_seeds_repetitions_mergeQPRs_ids_eq_proxy_mergeQPRs`, `..._total_eq_proxy_mergeQPRs`, Consistency/SeedsD.lean). -/
 def insertS (rev : Bool) (x : ID × Src) : List (ID × Src) → List (ID × Src)
   | [] => [x]
   | y :: ys => if before rev x.1 y.1 then x :: y :: ys else y :: insertS rev x ys
